@@ -233,6 +233,11 @@ func NewRepTarget(state, dir string, r *vk.Rand) (*RepTarget, error) {
 		if err = prep(); err == nil {
 			_, err = s.WriteAt(reng.Payload(0, 4096, 99), 0)
 		}
+	case "reverted":
+		// s2 becomes an orphan outside the live chain
+		if err = prep(); err == nil {
+			err = s.Revert("volume-snap-s1.img", "2026-01-01T00:00:00Z")
+		}
 	case "rebuilding":
 		if err = prep(); err == nil {
 			err = s.SetRebuilding(true)
@@ -284,7 +289,7 @@ func (t *RepTarget) Requests(r *vk.Rand) []Req {
 		{"snapshot", `{"name":"../x","created":"now"}`}, {"snapshot", `{"name":"s1","created":"now"}`}, {"snapshot", `{"name":"a/b","created":"now"}`},
 		{"revert", `{"name":"volume.meta","created":"now"}`}, {"revert", `{"name":"../x","created":"now"}`},
 		{"removedisk", `{"name":"volume-snap-s0.img"}`}, {"removedisk", `{"name":"volume-snap-s1.img.meta"}`}, {"removedisk", `{"name":""}`}, {"removedisk", `{"name":"../x"}`},
-		{"replacedisk", `{"target":"","source":""}`}, {"replacedisk", `{"target":"volume-snap-s1.img","source":"volume-snap-s1.img"}`},
+		{"replacedisk", `{"target":"","source":""}`}, {"replacedisk", `{"target":"volume-snap-s9.img","source":"volume-snap-s2.img"}`}, {"replacedisk", `{"target":"volume-snap-s2.img","source":"volume-snap-s0.img"}`}, {"replacedisk", `{"target":"volume-snap-s1.img","source":"volume-snap-s1.img"}`},
 		{"prepareremovedisk", `{"name":"s1"}`}, {"prepareremovedisk", `{"name":""}`},
 		{"updatecloneinfo", `{"snapname":"nope","revisioncounter":"x"}`}, {"setcheckpoint", `{"snapshotName":""}`},
 		{"start", `{"Action":""}`}, {"start", `{"Action":"start"}`}, {"start", `{"Action":"start"}`}, {"start", `{"Action":"start"}`}, {"start", `{"Action":"start"}`}, {"start", `{"Action":"start"}`}, {"start", `{"Action":"start"}`},
